@@ -243,50 +243,37 @@ impl<'a> World<'a> {
         }
     }
 
-    fn check_replicate_list(&mut self, from: usize, keys: &[(NetworkAddress, RecordType)], held: &[(NetworkAddress, RecordType)]) {
-        let list: BTreeSet<(Vec<u8>, String)> = keys.iter().map(|(a, t)| (a.to_record_key().to_vec(), format!("{t:?}"))).collect();
-        let have: BTreeSet<(Vec<u8>, String)> = held.iter().map(|(a, t)| (a.to_record_key().to_vec(), format!("{t:?}"))).collect();
-        let have_keys: BTreeSet<Vec<u8>> = have.iter().map(|(k, _)| k.clone()).collect();
-        if keys.len() == 1 {
-            // fresh-record notification: one key the sender holds (its type is the type of the upload)
-            if !have_keys.contains(&list.iter().next().unwrap().0) {
-                self.rep.probe("fresh_replication_of_key_not_yet_indexed");
-            }
+    /// A periodic (multi-key) replication list must be exactly the sender's index as it was when the
+    /// trigger command was handled, and every advertised content hash must be the hash of the record held.
+    fn check_replicate_list(&mut self, from: usize, keys: &[(NetworkAddress, RecordType)], _held: &[(NetworkAddress, RecordType)]) {
+        if keys.len() < 2 {
+            // a single key is (almost always) a fresh-record notification; not comparable with the index
             return;
         }
-        // every advertised version (content hash) is the version the sender really holds
-        for (a, t) in keys {
-            if let RecordType::NonChunk(h) = t {
-                let k = a.to_record_key().to_vec();
-                if let Some(r) = self.read(from, &k) {
-                    if data::sha3(&r.value) != h.0 {
-                        self.rep.violate(
-                            "C09",
-                            "advertised_version_is_not_the_held_version",
-                            &[],
-                            format!("node {from} advertises record {} with a content hash that is not the hash of the record it holds", hex::encode(&k[..6])),
-                        );
-                        return;
-                    }
-                }
-            }
-        }
-        // the list is built when the trigger command is handled, some time between the trigger and the
-        // send (records may have been added in between, none are removed in this sim):
-        // held-at-trigger <= list <= held-at-send
-        let floor = self.at_trigger[from].clone();
-        let ok = list.is_subset(&have) && floor.iter().filter(|e| have.contains(*e)).all(|e| list.contains(e));
-        if !ok {
-            let missing = floor.difference(&list).count();
+        let list: BTreeSet<(Vec<u8>, String)> = keys.iter().map(|(a, t)| (a.to_record_key().to_vec(), format!("{t:?}"))).collect();
+        let snap = self.hosts[from].index_at_trigger.clone();
+        let have: BTreeSet<(Vec<u8>, String)> = snap.iter().map(|(k, t, _)| (k.clone(), t.clone())).collect();
+        if list != have {
+            let missing = have.difference(&list).count();
             let extra = list.difference(&have).count();
             self.rep.violate(
                 "C09",
                 "replicate_list_differs_from_held_set",
                 &[("shape", if extra > 0 { "advertises_unheld".into() } else { "omits_held".to_string() })],
-                format!("node {from} advertised {} keys while holding {}: {missing} held records missing from the list, {extra} listed but not held", list.len(), have.len()),
+                format!("node {from} advertised {} keys while its index held {} when the list was built: {missing} held records missing from the list, {extra} listed but not held", list.len(), have.len()),
             );
-        } else {
-            self.rep.probe("replicate_list_equals_held_set");
+            return;
+        }
+        self.rep.probe("replicate_list_equals_held_set");
+        if let Some((k, _, _)) = snap.iter().find(|(_, _, m)| *m == Some(false)) {
+            self.rep.violate(
+                "C09",
+                "advertised_version_is_not_the_held_version",
+                &[],
+                format!("node {from} advertises record {} with a content hash that is not the hash of the record it holds (no write of it in flight)", hex::encode(&k[..6])),
+            );
+        } else if snap.iter().any(|(_, _, m)| m.is_none()) {
+            self.rep.probe("advert_hash_not_comparable_for_some_keys");
         }
     }
 
